@@ -17,6 +17,17 @@ import (
 // Heartbeat is bumped by every scheduler step of every Sim created through Bubble.
 var Heartbeat atomic.Uint64
 
+var bubbleErr atomic.Value
+
+// TakeBubbleError returns (and clears) the report of a bubble whose root goroutine deadlocked.
+func TakeBubbleError() string {
+	v := bubbleErr.Swap("")
+	if v == nil {
+		return ""
+	}
+	return v.(string)
+}
+
 // LeakedBubbles counts bubbles that ended with goroutines still blocked.
 var LeakedBubbles atomic.Uint64
 
@@ -50,10 +61,19 @@ func StartWatchdog(limit time.Duration, what func() string) {
 // (goroutines that never finish) is recovered and counted.
 func Bubble(t *testing.T, opt Options, fn func(s *Sim)) {
 	defer func() {
+		verifhook.Attach(nil) // also when the bubble died: nothing may call into a dead Sim
 		if r := recover(); r != nil {
 			msg := fmt.Sprint(r)
 			if strings.Contains(msg, "deadlock: main bubble goroutine has exited") {
 				LeakedBubbles.Add(1)
+				return
+			}
+			if strings.Contains(msg, "deadlock: all goroutines in bubble are blocked") {
+				// the bubble's root goroutine itself is blocked for good (in clean-up code after the
+				// scheduler finished): keep the stacks for the report
+				buf := make([]byte, 1<<18)
+				buf = buf[:runtime.Stack(buf, true)]
+				bubbleErr.Store(msg + "\n" + string(buf))
 				return
 			}
 			panic(r)
